@@ -28,6 +28,41 @@ Theorem C16_other_extensions_ignored : forall es p n,
   file_name p = Some n -> (forall e, In e es -> ~ EndsWith n e) -> watch_filter (Some es) p = false.
 Proof. exact other_extension_ignored. Qed.
 
+(* AFTER THE REPAIR OF D16 (an input declared as a FILE is also watched through its directory, so that it survives being replaced
+   by a rename): the filter has one more conjunct, `other_in_file_dir files` — `files` = the declared paths watched as files.
+   Paths are compared as Rust compares them, by components (`pkey`: root, leading `.`, Normal and `..` components). *)
+
+(* the declared file itself, under any spelling with the same components, is filtered exactly as before *)
+Theorem C16_declared_file_still_relevant : forall files exts f p,
+  In f files -> pkey p = pkey f -> watch_filter2 files exts p = watch_filter exts p.
+Proof. exact declared_file_any_spelling. Qed.
+
+(* any OTHER file in the directory of a declared file never triggers the target: the extra watch reports the declared file only *)
+Theorem C16_neighbour_of_declared_file_ignored : forall files exts f p d,
+  In f files -> parent_key (pkey f) = Some d -> parent_key (pkey p) = Some d ->
+  (forall f', In f' files -> pkey f' <> pkey p) ->
+  watch_filter2 files exts p = false.
+Proof. exact neighbour_of_declared_file_ignored. Qed.
+
+(* frame: a path whose directory is not the directory of a declared file is filtered exactly as before (always so when no
+   input is declared as a file): the theorems above about `watch_filter` carry over *)
+Theorem C16_no_declared_file_no_change : forall files exts p,
+  (forall f d q, In f files -> parent_key (pkey f) = Some d -> parent_key (pkey p) = Some q -> q <> d) ->
+  watch_filter2 files exts p = watch_filter exts p.
+Proof. exact no_declared_file_no_change. Qed.
+
+Example C16_declared_file_nonvacuous :
+  let conf_settings := [47;112;47;99;111;110;102;47;115;46;105;110;105] in      (* "/p/conf/s.ini" *)
+  let conf_other := [47;112;47;99;111;110;102;47;111;46;105;110;105] in         (* "/p/conf/o.ini" *)
+  let conf_dot_settings := [47;112;47;99;111;110;102;47;46;47;115;46;105;110;105] in   (* "/p/conf/./s.ini" *)
+  let src_a := [47;112;47;115;114;99;47;97] in                                  (* "/p/src/a" *)
+  watch_filter2 [conf_settings] None conf_settings = true /\
+  watch_filter2 [conf_settings] None conf_dot_settings = true /\
+  watch_filter2 [conf_settings] None conf_other = false /\
+  watch_filter None conf_other = true /\
+  watch_filter2 [conf_settings] None src_a = true.
+Proof. vm_compute. repeat split. Qed.
+
 (* non-vacuity: a concrete relevant path, a concrete temporary, a concrete state write *)
 Example C16_nonvacuous :
   let src_main_rs := [115;114;99;47;109;97;105;110;46;114;115] in   (* "src/main.rs" *)
